@@ -203,6 +203,20 @@ Definition stop_handler (c : cfg) (s : st) : st * list obs * bool :=
       end
   end.
 
+(* `WorkerState::Shutdown`: drain the queue, poll the 1 s timer, decide *)
+Definition shutdown_step (c : cfg) (s : st) (dl start : Z) (sid : nat) : st * list obs :=
+  let '(cnt, o1) := drain c (cq s) (counter s) in
+  let s1 := set_counter (set_cq s []) cnt in
+  if (now s1 <? dl)%Z then (s1, o1)
+  else match total c s1 with
+       | TOverflow => panicked s1 o1 POverflow
+       | TVal n =>
+           if (n =? 0)%Z then finish (set_ws s1 WUnavailable) (o1 ++ [StopAck sid true])
+           else if (c_timeout c <=? now s1 - start)%Z
+                then finish (set_ws s1 WUnavailable) (o1 ++ [StopAck sid false])
+                else (set_ws s1 (WShutdown (now s1 + 1000) start sid), o1)
+       end.
+
 Definition state_step (c : cfg) (s : st) : st * list obs * next :=
   match ws s with
   | WUnavailable =>
@@ -225,18 +239,7 @@ Definition state_step (c : cfg) (s : st) : st * list obs * next :=
                     [PollCreate k COk], NTop)
           end
       end
-  | WShutdown dl start sid =>
-      let '(cnt, o1) := drain c (cq s) (counter s) in
-      let s1 := set_counter (set_cq s []) cnt in
-      if (now s1 <? dl)%Z then (s1, o1, NRet)
-      else match total c s1 with
-           | TOverflow => (panicked s1 o1 POverflow, NRet)
-           | TVal n =>
-               if (n =? 0)%Z then (finish (set_ws s1 WUnavailable) (o1 ++ [StopAck sid true]), NRet)
-               else if (c_timeout c <=? now s1 - start)%Z
-                    then (finish (set_ws s1 WUnavailable) (o1 ++ [StopAck sid false]), NRet)
-                    else (set_ws s1 (WShutdown (now s1 + 1000) start sid), o1, NRet)
-           end
+  | WShutdown dl start sid => (shutdown_step c s dl start sid, NRet)
   | WAvailable =>
       let '(sv, r, o) := check_ready 0 (svcs s) in
       let s1 := set_svcs s sv in
